@@ -56,14 +56,14 @@ class C15Top(Serializable):
 
 
 VALUES = {
-    int: [0, -1, 2 ** 40, 7],
+    int: [0, -1, 2 ** 53 + 1, 7, -(2 ** 63) + 1],      # beyond 2**53: no exact double, must not pass through a float
     float: [0.5, -2.0, 1e-3],
     str: ["", "é", "a b", "UPPER"],
     bool: [True, False],
     C15Mode: [C15Mode.OFF, C15Mode.ON, C15Mode.AUTO],
     C15Level: [C15Level.LOW, C15Level.HIGH],
     C15Name: [C15Name.A, C15Name.B, C15Name.EMPTY],
-    C15Inner: [C15Inner(), C15Inner(n=-5, s="日本"), C15Inner(n=2 ** 40, s="x")],
+    C15Inner: [C15Inner(), C15Inner(n=-5, s="日本"), C15Inner(n=2 ** 63 - 1, s="x")],
 }
 BASIC = [int, float, str, bool, C15Mode, C15Level, C15Name]
 KEYS = [int, str, C15Mode, C15Name]
